@@ -20,6 +20,7 @@
 -/
 import Ark.Proofs.Codec
 import Ark.Proofs.DumpLoad
+import Ark.Props.C17Hist
 
 namespace Ark.Props.C17
 open Ark Ark.Codec Ark.World
@@ -153,5 +154,29 @@ private def src : Pool := (Pool.init.get.1.get.1).recycle ⟨2, 0⟩
 example : src.Core = ([⟨0, maxU32⟩, ⟨1, maxU32⟩, ⟨0, 1⟩, ⟨3, 0⟩], 2, 1) := by decide
 example : src.getN 2 = [⟨2, 1⟩, ⟨4, 0⟩] := by decide
 example : src.alive ⟨2, 0⟩ = false ∧ src.alive ⟨3, 0⟩ = true := by decide
+
+
+/-! ### Over histories (Props/C17Hist) -/
+
+/-- `DumpEntities` at a state satisfying the invariant succeeds, changes only the lock's bit pool, and its `alive` list is duplicate-free and lists exactly the live IDs -/
+theorem hist_dump_spec : type_of% @Ark.Props.C17Hist.dump_spec := @Ark.Props.C17Hist.dump_spec
+
+/-- **C17, first sentence** over histories: dump after any history, load into the reset world or into a new world with the same registrations (any capacities): every handle issued in the history has the same `Alive` answer as at dump time -/
+theorem hist_dump_load_alive_and_handles : type_of% @Ark.Props.C17Hist.dump_load_alive_and_handles := @Ark.Props.C17Hist.dump_load_alive_and_handles
+
+/-- … and any sequence of entity creations afterwards returns the same handles in the source, the reset world and the new world -/
+theorem hist_dump_load_creations : type_of% @Ark.Props.C17Hist.dump_load_creations := @Ark.Props.C17Hist.dump_load_creations
+
+/-- the handle of any successful creation, with or without components, is the next handle of the pool -/
+theorem hist_creation_handle : type_of% @Ark.Props.C17Hist.creation_handle := @Ark.Props.C17Hist.creation_handle
+
+/-- the loaded world: registry, archetypes and the other tables are the target's; pool core, free list and issued handles are the source's; every alive handle sits in a row of table 0 with its generation and is indexed to it; all other tables are empty -/
+theorem hist_loaded_world : type_of% @Ark.Props.C17Hist.loaded_world := @Ark.Props.C17Hist.loaded_world
+
+/-- with the dead index entries normalised the loaded world satisfies the full history invariant with the source's entities (without components) -/
+theorem hist_loaded_world_normalised : type_of% @Ark.Props.C17Hist.loaded_world_normalised := @Ark.Props.C17Hist.loaded_world_normalised
+
+/-- finding: `LoadEntities` leaves the index entries of reserved and free IDs at `(table 0, row 0)` instead of `(no table, _)`; unobservable (every access is behind the `Alive` check) but the loaded world does not satisfy `CInv` literally -/
+theorem hist_loaded_index_deviates : type_of% @Ark.Props.C17Hist.loaded_index_deviates := @Ark.Props.C17Hist.loaded_index_deviates
 
 end Ark.Props.C17
